@@ -24,7 +24,9 @@ CFG = dict(
          "(results / reset in varying order, NULL and missing cells); (iii) a SQL query with CountingWindow(N) (optionally GROUP BY g), "
          "bare, nested-path and arithmetic arguments (a*b+1, a*b, a-b, a*2), a sync sink and a sentinel batch as barrier. "
          "distinct = distinct (cfg, op list); floats compared bit-exactly",
-    assumptions=[
+    assumptions=["global-window variant of the sql cases (cfg gwin): values restricted to the property's own domain (numbers, whole ones within +-2^53, NULL, missing); the running aggregators hold every number as float64, so a whole number is compared as the float64 of the same value",
+                 "nth_value / percentile in a GLOBAL WINDOW query are the recorded finding class global-window-parameterised-aggregate (left out of the result row); cases of that class are generated, compared with the model and excused by class only",
+                 
         "permutation invariance (agg_perm_invariant*) is a theorem of exact arithmetic (commutative, associative +, strict total order; Lean core Rat is an instance); "
         "it is false of float64 for adversarial inputs — the property text says 'over float64 arithmetic'; the fold = definition theorems need no law and hold for float64",
         "median / percentile: 'fold = definition' needs a strict total order (no NaN, no mix of -0 and +0); sort.Float64s is modelled by an insertion sort (any correct sort agrees up to ties); "
